@@ -326,14 +326,82 @@ theorem sorted_unique (less : κ → κ → Bool) (ks s₁ s₂ : List κ)
 
 end
 
+/-! ### lexicographic products -/
+
+/-- `x < y` on pairs: first components by `la`, equal first components by `lb` -/
+def lexLt {α β : Type} [DecidableEq α] (la : α → α → Bool) (lb : β → β → Bool) (x y : α × β) : Bool :=
+  la x.1 y.1 || (decide (x.1 = y.1) && lb x.2 y.2)
+
+theorem StrictTotal.irrefl {α : Type} {lt : α → α → Bool} (h : StrictTotal lt) (a : α) : lt a a = false := by
+  cases e : lt a a with
+  | false => rfl
+  | true => have := h.asymm a a e; rw [e] at this; cases this
+
+theorem StrictTotal.lex {α β : Type} [DecidableEq α] {la : α → α → Bool} {lb : β → β → Bool}
+    (ha : StrictTotal la) (hb : StrictTotal lb) : StrictTotal (lexLt la lb) := by
+  refine ⟨?_, ?_, ?_⟩
+  · intro x y h
+    simp only [lexLt, Bool.or_eq_true, Bool.and_eq_true, decide_eq_true_eq] at h
+    simp only [lexLt, Bool.or_eq_false_iff, Bool.and_eq_false_iff, decide_eq_false_iff_not]
+    rcases h with h | ⟨e, h⟩
+    · refine ⟨ha.asymm _ _ h, Or.inl ?_⟩
+      intro e; rw [e, ha.irrefl] at h; cases h
+    · refine ⟨?_, Or.inr (hb.asymm _ _ h)⟩
+      rw [e]; exact ha.irrefl _
+  · intro x y z h₁ h₂
+    simp only [lexLt, Bool.or_eq_true, Bool.and_eq_true, decide_eq_true_eq] at h₁ h₂ ⊢
+    rcases h₁ with h₁ | ⟨e₁, h₁⟩ <;> rcases h₂ with h₂ | ⟨e₂, h₂⟩
+    · exact Or.inl (ha.trans _ _ _ h₁ h₂)
+    · exact Or.inl (by rw [← e₂]; exact h₁)
+    · exact Or.inl (by rw [e₁]; exact h₂)
+    · exact Or.inr ⟨e₁.trans e₂, hb.trans _ _ _ h₁ h₂⟩
+  · intro x y h₁ h₂
+    simp only [lexLt, Bool.or_eq_false_iff, Bool.and_eq_false_iff, decide_eq_false_iff_not] at h₁ h₂
+    have e : x.1 = y.1 := ha.connected _ _ h₁.1 h₂.1
+    have t₁ : lb x.2 y.2 = false := by
+      rcases h₁.2 with h | h
+      · exact absurd e h
+      · exact h
+    have t₂ : lb y.2 x.2 = false := by
+      rcases h₂.2 with h | h
+      · exact absurd e.symm h
+      · exact h
+    exact Prod.ext e (hb.connected _ _ t₁ t₂)
+
 /-! ### the comparator of sortedMapKeys -/
 
-theorem keyLess_connected_byValue (a c : GoKey) (hcls : a.cls = c.cls) (ha : a.byValue = true)
-    (h₁ : keyLess c a = false) (h₂ : keyLess a c = false) : a = c := by
-  cases a <;> cases c <;> simp [GoKey.cls, GoKey.byValue] at hcls ha
-  · simp [keyLess] at h₁ h₂; congr; omega
-  · simp [keyLess] at h₁ h₂; congr; omega
-  · simp only [keyLess] at h₁ h₂; congr; exact bytesLt_connected _ _ h₂ h₁
+/-- The sort key the comparator works with: `keyLess a c` is the lexicographic order of the ranks
+    (`keyLess_eq_rank`).  NaN keys sort before all other floats; string ranks use the first, `other`
+    keys all three byte strings. -/
+abbrev Rank := Nat × Int × Bytes × Bytes × Bytes
+
+def GoKey.rank : GoKey → Rank
+  | .int i => (0, i, [], [], [])
+  | .uint n => (1, (n : Int), [], [], [])
+  | .nan _ => (2, 0, [], [], [])
+  | .float r => (3, r, [], [], [])
+  | .str s => (4, 0, s, [], [])
+  | .other _ _ p t g => (5, 0, p, t, g)
+
+def rankLt : Rank → Rank → Bool :=
+  lexLt (fun a c : Nat => decide (a < c)) (lexLt (fun a c : Int => decide (a < c))
+    (lexLt bytesLt (lexLt bytesLt bytesLt)))
+
+theorem rankLt_strictTotal : StrictTotal rankLt :=
+  natLt_strictTotal.lex (intLt_strictTotal.lex (bytesLt_strictTotal.lex
+    (bytesLt_strictTotal.lex bytesLt_strictTotal)))
+
+theorem keyLess_eq_rank (a c : GoKey) : keyLess a c = rankLt a.rank c.rank := by
+  cases a <;> cases c <;>
+    simp [keyLess, rankLt, lexLt, GoKey.rank, GoKey.cls, bytesLt_irrefl]
+  all_goals try exact decide_eq_decide.mpr Iff.rfl
+  case other.other i se p t g j se' q u h =>
+    by_cases hpq : p = q
+    · subst hpq
+      by_cases htu : t = u
+      · subst htu; simp [bytesLt_irrefl]
+      · simp [htu, bytesLt_irrefl]
+    · simp [hpq]
 
 theorem StrictTotal.negTrans {α : Type} {lt : α → α → Bool} (h : StrictTotal lt) (a c d : α) :
     lt c a = false → lt d c = false → lt d a = false := by
@@ -350,14 +418,82 @@ theorem StrictTotal.negTrans {α : Type} {lt : α → α → Bool} (h : StrictTo
 
 theorem keyLess_negTrans (a c d : GoKey) :
     keyLess c a = false → keyLess d c = false → keyLess d a = false := by
-  cases a <;> cases c <;> cases d <;> simp [keyLess, GoKey.cls] <;> try omega
-  · exact bytesLt_strictTotal.negTrans _ _ _
-  · exact bytesLt_strictTotal.negTrans _ _ _
+  simp only [keyLess_eq_rank]
+  exact rankLt_strictTotal.negTrans _ _ _
 
 theorem keyLess_asymm (a c : GoKey) : keyLess a c = true → keyLess c a = false := by
-  cases a <;> cases c <;> simp [keyLess, GoKey.cls] <;> try omega
-  · exact bytesLt_asymm _ _
-  · exact bytesLt_asymm _ _
+  simp only [keyLess_eq_rank]
+  exact rankLt_strictTotal.asymm _ _
+
+/-- keys that the comparator cannot tell apart have the same rank -/
+theorem rank_eq_of_tied (a c : GoKey) (h₁ : keyLess c a = false) (h₂ : keyLess a c = false) :
+    a.rank = c.rank := by
+  rw [keyLess_eq_rank] at h₁ h₂
+  exact rankLt_strictTotal.connected _ _ h₂ h₁
+
+/-- keys compared by value with equal ranks are the same key, or both NaN -/
+theorem obs_eq_of_rank_eq_byValue (a c : GoKey) (ha : a.byValue = true) (hc : c.byValue = true)
+    (h : a.rank = c.rank) : a.obs = c.obs := by
+  cases a <;> cases c <;> simp [GoKey.rank, GoKey.byValue] at h ha hc <;> simp [GoKey.obs, h]
+  omega
+
+theorem keyLess_connected_byValue (a c : GoKey) (ha : a.byValue = true) (hc : c.byValue = true)
+    (h₁ : keyLess c a = false) (h₂ : keyLess a c = false) : a.obs = c.obs :=
+  obs_eq_of_rank_eq_byValue a c ha hc (rank_eq_of_tied a c h₁ h₂)
+
+theorem obs_of_selfEq (k : GoKey) (h : k.selfEq = true) : k.obs = k := by
+  cases k <;> simp [GoKey.selfEq] at h <;> simp [GoKey.obs]
+  rename_i i se p t g
+  subst h; rfl
+
+theorem selfEq_obs (k : GoKey) : k.obs.selfEq = k.selfEq := by
+  cases k <;> try rfl
+  rename_i i se p t g
+  cases se <;> rfl
+
+/-- the comparator does not look at what `obs` forgets -/
+theorem keyLess_obs (a c : GoKey) : keyLess a c = keyLess a.obs c.obs := by
+  have r : ∀ k : GoKey, k.obs.rank = k.rank := by
+    intro k
+    cases k <;> try rfl
+    rename_i i se p t g
+    cases se <;> rfl
+  rw [keyLess_eq_rank, keyLess_eq_rank, r, r]
+
+/-- `MapIndex` depends on a key only through what can be observed of it -/
+theorem mapIndex_obs {ν : Type} (es : List (GoKey × ν)) (k : GoKey) : mapIndex es k.obs = mapIndex es k := by
+  cases hs : k.selfEq with
+  | true => rw [obs_of_selfEq k hs]
+  | false => simp [mapIndex, selfEq_obs, hs]
+
+theorem obs_obs (k : GoKey) : k.obs.obs = k.obs := by
+  cases k <;> try rfl
+  case other i se p t g => cases se <;> rfl
+
+theorem mergeStep_obs {ν κ' : Type} [DecidableEq κ'] (g : GoKey → κ') (es : List (GoKey × ν)) (m : GoMap κ' ν)
+    (k : GoKey) : mergeStep g es m k.obs = mergeStep g es m k := by
+  unfold mergeStep
+  rw [mapIndex_obs, obs_obs]
+
+/-- Two sorted permutations of the same keys agree on every function of the keys that the comparator
+    factors through and on whose values it is connected.  (With `f = id` this is `sorted_unique`.) -/
+theorem sorted_map_unique {α β : Type} (less : α → α → Bool) (f : α → β) (lessβ : β → β → Bool)
+    (hf : ∀ a c, less a c = lessβ (f a) (f c)) (ks s₁ s₂ : List α)
+    (hconn : ∀ a ∈ ks, ∀ c ∈ ks, less c a = false → less a c = false → f a = f c)
+    (h₁ : SortedBy less s₁) (h₂ : SortedBy less s₂) (p₁ : s₁.Perm ks) (p₂ : s₂.Perm ks) :
+    s₁.map f = s₂.map f := by
+  apply sorted_unique lessβ (ks.map f) (s₁.map f) (s₂.map f) _ _ _ (p₁.map f) (p₂.map f)
+  · intro x hx y hy hyx hxy
+    obtain ⟨a, ha, rfl⟩ := List.mem_map.mp hx
+    obtain ⟨c, hc, rfl⟩ := List.mem_map.mp hy
+    rw [← hf] at hyx hxy
+    exact hconn a ha c hc hyx hxy
+  · unfold SortedBy at h₁ ⊢
+    rw [List.pairwise_map]
+    exact h₁.imp (by intro a c h; rw [← hf]; exact h)
+  · unfold SortedBy at h₂ ⊢
+    rw [List.pairwise_map]
+    exact h₂.imp (by intro a c h; rw [← hf]; exact h)
 
 /-- the executable reference sort meets the contract of package sort -/
 theorem sortKeys_spec : SortSpec keyLess sortKeys := by
@@ -376,6 +512,32 @@ theorem sortKeys_spec : SortSpec keyLess sortKeys := by
       | true => simp [keyLess_asymm a c h])
     l
   exact this.imp (by intro a c h; simpa using h)
+
+/-! ### source-order evaluation: the last store under a key wins -/
+
+section
+variable {κ ν : Type}
+
+/-- after `for … { dst[k] = v }` over `l` *in this order*, a key holds the value of the last entry of `l`
+    with that key, else what `dst` held -/
+theorem copyAll_apply [DecidableEq κ] : ∀ (l : List (κ × ν)) (dst : GoMap κ ν) (k : κ),
+    copyAll dst l k = match l.reverse.find? (fun e => e.1 = k) with
+      | some e => some e.2
+      | none => dst k
+  | [], dst, k => by simp [copyAll]
+  | e :: l, dst, k => by
+    have ih := copyAll_apply l (dst.insert e.1 e.2) k
+    simp only [copyAll, List.foldl_cons] at ih ⊢
+    rw [ih, List.reverse_cons, List.find?_append]
+    cases h : l.reverse.find? (fun e => decide (e.1 = k)) with
+    | some x => simp
+    | none =>
+      by_cases hk : e.1 = k
+      · simp [GoMap.insert, hk]
+      · have hk' : ¬ k = e.1 := fun x => hk x.symm
+        simp [GoMap.insert, hk, hk']
+
+end
 
 /-! ### date format -/
 
